@@ -5,6 +5,7 @@ import Umya.Lemmas.Formula
 import Umya.Lemmas.FormulaRemove
 import Umya.Thm.C09
 import Umya.Lemmas.FormulaGen
+import Umya.Lemmas.NameShift
 namespace Umya.Thm.C08
 open Umya.Coord Umya.Dec Umya.Formula
 
@@ -55,7 +56,7 @@ theorem C08_nonrefs_untouched (toks toks' : List Tok) (rc oc rr orr : Nat) (ws s
   · exact mapRes_untouched (by intro t ht; simp [insertTok, ht]) toks toks' h
   · exact mapRes_untouched (by intro t ht; simp [removeTok, ht]) toks toks' h
 
-example : isRangeOperand ⟨['"', 'A', '1'], .operand, .text⟩ = false := by decide
+example : isRangeOperand ⟨['"', 'A', '1'], .operand, .text, .none⟩ = false := by decide
 
 /-! ### one reference token against the AST shifter -/
 
@@ -203,6 +204,200 @@ example : FitsInsert (.two ⟨some ⟨2, false⟩, some ⟨2, false⟩⟩ ⟨som
   intro k hk
   rcases hk with h | h <;> subst h <;> intro x hx <;> injection hx with hx <;> subst hx <;>
     simp [Spec.insNum, Spec.maxRow]
+
+
+/-! ### defined names follow the sheet they refer to (fix 1629c1f) -/
+
+section DefinedNames
+open Umya.NameShift Umya.Annot
+
+/-- apply `f` to every address of a name -/
+def nameMap (f : Address → Address) (d : DefName) : DefName := { d with areas := d.areas.map f }
+
+/-- a predicate on every address of every name of the workbook, wherever the name is stored -/
+def AllAddr (P : Address → Prop) (b : Book) : Prop :=
+  (∀ d ∈ b.wbNames, ∀ a ∈ d.areas, P a) ∧ (∀ s ∈ b.sheets, ∀ d ∈ s.2, ∀ a ∈ d.areas, P a)
+
+/-- what the property demands of one address when `n` lines are inserted at `at_` on sheet
+    `edited`: shifted iff the sheet it REFERS to is the edited sheet -/
+def followInsert (edited : Text) (ax : Spec.Axis) (at_ n : Nat) (a : Address) : Address :=
+  if a.sheet = edited then { a with range := Spec.shiftRangeInsert a.range ax at_ n } else a
+
+/-- **Defined names, insert.**  For every workbook (workbook-level names and the names stored on
+    any sheet, with any number of areas each), every edited sheet name, axis, position and count:
+    after `Spreadsheet::insert_new_row / insert_new_column(edited, ..)` every address whose sheet
+    is the edited sheet is the shifted one (`Spec.shiftRangeInsert`: each part at or behind the
+    insertion point moved by `n`, `$` flags kept), every other address — in particular those of
+    names stored ON the edited sheet that refer elsewhere — is unchanged, no name is lost and
+    nothing panics.  Hypothesis: no number overflows `u32` (any grid coordinate with `n < 2^32 - 2^20`). -/
+theorem C08_defined_names_follow (b : Book) (edited : Text) (ax : Spec.Axis) (at_ n : Nat) (hn : n ≠ 0)
+    (hfit : AllAddr (fun a => RangeFits a.range n) b) :
+    bookInsert b edited (axisArgs ax at_ n).1 (axisArgs ax at_ n).2.1 (axisArgs ax at_ n).2.2.1 (axisArgs ax at_ n).2.2.2
+      = .ok ⟨b.wbNames.map (nameMap (followInsert edited ax at_ n)),
+             b.sheets.map (fun s => (s.1, s.2.map (nameMap (followInsert edited ax at_ n))))⟩ := by
+  have haddr : ∀ a : Address, RangeFits a.range n →
+      addrInsert a edited (axisArgs ax at_ n).1 (axisArgs ax at_ n).2.1 (axisArgs ax at_ n).2.2.1 (axisArgs ax at_ n).2.2.2
+        = .ok (followInsert edited ax at_ n a) := by
+    intro a hf
+    unfold addrInsert followInsert
+    by_cases hs : a.sheet = edited
+    · simp [hs, rangeInsert_spec a.range ax at_ n hf, Res.bind]
+    · simp [hs]
+  have hname : ∀ d : DefName, (∀ a ∈ d.areas, RangeFits a.range n) →
+      nameInsert d edited (axisArgs ax at_ n).1 (axisArgs ax at_ n).2.1 (axisArgs ax at_ n).2.2.1 (axisArgs ax at_ n).2.2.2
+        = .ok (nameMap (followInsert edited ax at_ n) d) := by
+    intro d hd
+    unfold nameInsert
+    rw [mapRes_pointwise _ (followInsert edited ax at_ n) d.areas (fun a ha => haddr a (hd a ha))]
+    rfl
+  have hz : ((axisArgs ax at_ n).2.1 = 0 && (axisArgs ax at_ n).2.2.2 = 0) = false := by
+    cases ax <;> simp [axisArgs, hn]
+  unfold bookInsert
+  rw [mapRes_pointwise _ (nameMap (followInsert edited ax at_ n)) b.wbNames (fun d hd => hname d (hfit.1 d hd))]
+  rw [mapRes_pointwise _ (fun s => (s.1, s.2.map (nameMap (followInsert edited ax at_ n)))) b.sheets]
+  · rfl
+  · intro s hs
+    simp only [namesInsert, hz, Bool.false_eq_true, if_false]
+    rw [mapRes_pointwise _ (nameMap (followInsert edited ax at_ n)) s.2 (fun d hd => hname d (hfit.2 s hs d hd))]
+    rfl
+
+/-- what the property demands of one address when the lines `[at_, at_ + n)` of sheet `edited`
+    are removed: `none` = its target was deleted -/
+def followRemove (edited : Text) (ax : Spec.Axis) (at_ n : Nat) (a : Address) : Option Address :=
+  if a.sheet = edited then (Spec.shiftRangeRemove a.range ax at_ n).map (fun ρ => { a with range := ρ })
+  else some a
+
+/-- what the property demands of one name: its surviving areas shifted / clamped; a name all of
+    whose areas were deleted is the error text `#REF!` -/
+def nameFollowRemove (edited : Text) (ax : Spec.Axis) (at_ n : Nat) (d : DefName) : DefName :=
+  if !d.areas.isEmpty && (d.areas.filterMap (followRemove edited ax at_ n)).isEmpty
+  then { areas := [], str := some refError }
+  else { d with areas := d.areas.filterMap (followRemove edited ax at_ n) }
+
+/-- **Defined names, remove.**  After `Spreadsheet::remove_row / remove_column(edited, ..)` every
+    address whose sheet is the edited sheet and whose target survives (at least partly) is the
+    shifted / clamped one of `Spec.shiftRangeRemove`, every address of another sheet is unchanged
+    wherever its name is stored, and nothing panics.  A name all of whose areas were deleted
+    becomes the text `#REF!` (was known finding C08-defined-name-deleted-target).  Left as the code
+    has it: of a name with SEVERAL areas, an area that is deleted while another survives is dropped
+    from the list (the property wants `#REF!` in its place; not generated by the harness), and a
+    sheet-level name that had neither text nor areas before the edit is dropped. -/
+theorem C08_defined_names_follow_remove (b : Book) (edited : Text) (ax : Spec.Axis) (at_ n : Nat)
+    (h1 : 1 ≤ at_) (hn : n ≠ 0) (ho : at_ + n ≤ 4294967295)
+    (hwf : AllAddr (fun a => StartFirst a.range) b) :
+    bookRemove b edited (axisArgs ax at_ n).1 (axisArgs ax at_ n).2.1 (axisArgs ax at_ n).2.2.1 (axisArgs ax at_ n).2.2.2
+      = .ok ⟨b.wbNames.map (nameFollowRemove edited ax at_ n),
+             b.sheets.map (fun s => (s.1, (s.2.filter (fun d => !nameIsRemove d)).map
+               (nameFollowRemove edited ax at_ n)))⟩ := by
+  have hisrem : ∀ a : Address, StartFirst a.range →
+      addrIsRemove a edited (axisArgs ax at_ n).1 (axisArgs ax at_ n).2.1 (axisArgs ax at_ n).2.2.1 (axisArgs ax at_ n).2.2.2
+        = .ok (followRemove edited ax at_ n a).isNone := by
+    intro a hsf
+    unfold addrIsRemove followRemove
+    by_cases hs : a.sheet = edited
+    · simp only [hs, if_true, rangeIsRemove_spec a.range ax at_ n h1 hn ho hsf]
+      cases Spec.shiftRangeRemove a.range ax at_ n <;> rfl
+    · simp [hs]
+  have hrem : ∀ a a' : Address, StartFirst a.range → followRemove edited ax at_ n a = some a' →
+      addrRemove a edited (axisArgs ax at_ n).1 (axisArgs ax at_ n).2.1 (axisArgs ax at_ n).2.2.1 (axisArgs ax at_ n).2.2.2
+        = .ok a' := by
+    intro a a' hsf h
+    unfold addrRemove
+    unfold followRemove at h
+    by_cases hs : a.sheet = edited
+    · simp only [hs, if_true] at h ⊢
+      cases hr : Spec.shiftRangeRemove a.range ax at_ n with
+      | none => simp [hr] at h
+      | some ρ' =>
+        simp only [hr, Option.map_some, Option.some.injEq] at h
+        subst h
+        simp [rangeRemove_spec a.range ρ' ax at_ n h1 hn ho hsf hr, Res.bind]
+    · simp only [hs, if_false, Option.some.injEq] at h ⊢
+      rw [h]
+  have hname : ∀ d : DefName, (∀ a ∈ d.areas, StartFirst a.range) →
+      nameRemove d edited (axisArgs ax at_ n).1 (axisArgs ax at_ n).2.1 (axisArgs ax at_ n).2.2.1 (axisArgs ax at_ n).2.2.2
+        = .ok (nameFollowRemove edited ax at_ n d) := by
+    intro d hd
+    unfold nameRemove nameFollowRemove
+    rw [rejectRes_pointwise _ (fun a => (followRemove edited ax at_ n a).isNone) d.areas
+      (fun a ha => hisrem a (hd a ha))]
+    have hfun : (fun a => !(followRemove edited ax at_ n a).isNone) = (fun a => (followRemove edited ax at_ n a).isSome) := by
+      funext a; cases followRemove edited ax at_ n a <;> rfl
+    rw [hfun]
+    simp only [Res.bind]
+    -- the kept areas all have an image
+    have hk : ∀ l : List Address, (∀ a ∈ l, StartFirst a.range) →
+        mapRes (fun a => addrRemove a edited (axisArgs ax at_ n).1 (axisArgs ax at_ n).2.1 (axisArgs ax at_ n).2.2.1
+            (axisArgs ax at_ n).2.2.2) (l.filter (fun a => (followRemove edited ax at_ n a).isSome))
+          = .ok (l.filterMap (followRemove edited ax at_ n)) := by
+      intro l hl
+      induction l with
+      | nil => rfl
+      | cons a rest ih =>
+        have ih' := ih (fun x hx => hl x (List.mem_cons_of_mem _ hx))
+        cases hf : followRemove edited ax at_ n a with
+        | none => simp [List.filter, List.filterMap, hf, ih']
+        | some a' =>
+          simp [List.filter, List.filterMap, hf, mapRes, hrem a a' (hl a (List.mem_cons_self ..)) hf, ih']
+    have hempty : (d.areas.filter (fun a => (followRemove edited ax at_ n a).isSome)).isEmpty
+        = (d.areas.filterMap (followRemove edited ax at_ n)).isEmpty := by
+      generalize d.areas = l
+      induction l with
+      | nil => rfl
+      | cons a rest ih =>
+        cases hf : followRemove edited ax at_ n a with
+        | none => simpa [List.filter, List.filterMap, hf] using ih
+        | some a' => simp [List.filter, List.filterMap, hf]
+    rw [hempty, hk d.areas hd]
+    split <;> rfl
+  have hz : ((axisArgs ax at_ n).2.1 = 0 && (axisArgs ax at_ n).2.2.2 = 0) = false := by
+    cases ax <;> simp [axisArgs, hn]
+  unfold bookRemove
+  rw [mapRes_pointwise _ (nameFollowRemove edited ax at_ n) b.wbNames
+    (fun d hd => hname d (hwf.1 d hd))]
+  rw [mapRes_pointwise _ (fun s => (s.1, (s.2.filter (fun d => !nameIsRemove d)).map
+      (nameFollowRemove edited ax at_ n))) b.sheets]
+  · rfl
+  · intro s hs
+    simp only [namesRemove, hz, Bool.false_eq_true, if_false]
+    rw [mapRes_pointwise _ (nameFollowRemove edited ax at_ n)
+      (s.2.filter (fun d => !nameIsRemove d))
+      (fun d hd => hname d (hwf.2 s hs d (List.mem_filter.1 hd).1))]
+    rfl
+
+/-- non-vacuity and the two repaired situations, on a concrete workbook: `N1` stored on `A` refers
+    to `Sa!$B$3`, `N2` stored on `Sa` refers to `Sb!C5:D9`, `N3` is a workbook-level name for `Sb!A2`.
+    Inserting 2 rows at row 2 of sheet `Sb` leaves `N1` alone and moves `N2` and `N3`. -/
+def exBook : Book :=
+  ⟨[⟨[⟨['S', 'b'], ⟨some ⟨1, false⟩, some ⟨2, false⟩, none, none⟩⟩], none⟩],
+   [(['S', 'a'], [⟨[⟨['S', 'a'], ⟨some ⟨2, true⟩, some ⟨3, true⟩, none, none⟩⟩], none⟩,
+                  ⟨[⟨['S', 'b'], ⟨some ⟨3, false⟩, some ⟨5, false⟩, some ⟨4, false⟩, some ⟨9, false⟩⟩⟩], none⟩]),
+    (['S', 'b'], [])]⟩
+
+example : bookInsert exBook ['S', 'b'] 0 0 2 2 = .ok
+    ⟨[⟨[⟨['S', 'b'], ⟨some ⟨1, false⟩, some ⟨4, false⟩, none, none⟩⟩], none⟩],
+     [(['S', 'a'], [⟨[⟨['S', 'a'], ⟨some ⟨2, true⟩, some ⟨3, true⟩, none, none⟩⟩], none⟩,
+                    ⟨[⟨['S', 'b'], ⟨some ⟨3, false⟩, some ⟨7, false⟩, some ⟨4, false⟩, some ⟨11, false⟩⟩⟩], none⟩]),
+      (['S', 'b'], [])]⟩ := by
+  decide
+
+/-- removing rows 2..6 of `Sb`: `N3` (`Sb!A2`) is deleted entirely and becomes `#REF!`, `N2`
+    (`Sb!C5:D9`) is clamped to `Sb!C2:D4`, `N1` (on `Sa`) is untouched -/
+example : bookRemove exBook ['S', 'b'] 0 0 2 5 = .ok
+    ⟨[⟨[], some ['#', 'R', 'E', 'F', '!']⟩],
+     [(['S', 'a'], [⟨[⟨['S', 'a'], ⟨some ⟨2, true⟩, some ⟨3, true⟩, none, none⟩⟩], none⟩,
+                    ⟨[⟨['S', 'b'], ⟨some ⟨3, false⟩, some ⟨2, false⟩, some ⟨4, false⟩, some ⟨4, false⟩⟩⟩], none⟩]),
+      (['S', 'b'], [])]⟩ := by
+  decide
+
+example : AllAddr (fun a => RangeFits a.range 2) exBook ∧ AllAddr (fun a => StartFirst a.range) exBook := by
+  simp [AllAddr, exBook, RangeFits, StartFirst]
+  refine ⟨?_, ?_, ?_⟩
+  · intro r h; rcases h with rfl | rfl <;> decide
+  · intro r h; rcases h with rfl | rfl <;> decide
+  · intro r h; rcases h with rfl | rfl | rfl | rfl <;> decide
+
+end DefinedNames
 
 
 /-- **Tie to the source (T).**  `translate_part` (a column / row part moved by an offset unless locked; `None`
